@@ -17,7 +17,7 @@ Section More.
   Lemma spec_up_shape : forall ops st seen buf, Forall up_shape (spec_up own keep_rule st seen buf ops).
   Proof.
     induction ops as [|o r IH]; intros st seen buf; [constructor|].
-    destruct o as [sid tid key ds|b| |]; cbn [spec_up]; try apply IH.
+    destruct o as [sid tid key ds|b| | |psid ptid pkey pds]; cbn [spec_up]; try apply IH.
     apply Forall_app. split; [|apply IH].
     destruct (fate_of own keep_rule st seen buf tid); cbn [expect_up]; try constructor; try constructor;
       unfold up_shape; cbn; repeat split; auto.
@@ -26,7 +26,7 @@ Section More.
   Lemma spec_pr_shape : forall ops st seen buf, Forall pr_shape (spec_pr own keep_rule st seen buf ops).
   Proof.
     induction ops as [|o r IH]; intros st seen buf; [constructor|].
-    destruct o as [sid tid key ds|b| |]; cbn [spec_pr]; try apply IH.
+    destruct o as [sid tid key ds|b| | |psid ptid pkey pds]; cbn [spec_pr]; try apply IH.
     apply Forall_app. split; [|apply IH].
     unfold fate_of. destruct st.
     - destruct (keep_rule tid); cbn [expect_pr]; [|constructor].
